@@ -66,6 +66,28 @@ type Codec interface {
 	Decode(message []byte) (any, error)
 }
 
+// nilMessageName 是 WriteMessage 写入 nil 消息时使用的保留消息名，ReadMessage 读到该名称时还原为 nil。
+const nilMessageName = "<nil>"
+
+// ErrCodecRequired 表示消息不是已注册的内部消息，而又未配置 Codec，无法编解码。
+var ErrCodecRequired = fmt.Errorf("message is not a registered message and no codec is configured")
+
+// EncodeOutside 使用 Codec 编码外部消息，未配置 Codec 时返回 ErrCodecRequired。
+func EncodeOutside(codec Codec, message any) ([]byte, error) {
+	if codec == nil {
+		return nil, fmt.Errorf("%w: %T", ErrCodecRequired, message)
+	}
+	return codec.Encode(message)
+}
+
+// DecodeOutside 使用 Codec 解码外部消息，未配置 Codec 时返回 ErrCodecRequired。
+func DecodeOutside(codec Codec, data []byte) (any, error) {
+	if codec == nil {
+		return nil, ErrCodecRequired
+	}
+	return codec.Decode(data)
+}
+
 func RegisterInternalMessage[T any](messageName string, reader InternalMessageReader, writer InternalMessageWriter) {
 	tof := reflect.TypeOf((*T)(nil)).Elem().Elem()
 	desc := &MessageDesc{
@@ -79,8 +101,12 @@ func RegisterInternalMessage[T any](messageName string, reader InternalMessageRe
 }
 
 func QueryMessageDesc(message any) *MessageDesc {
-	tof := reflect.TypeOf(message).Elem()
-	desc, ok := internalMessageTypeOfDesc[tof]
+	tof := reflect.TypeOf(message)
+	// nil 或非指针类型的消息不可能是已注册的内部消息（注册类型均为结构体指针），交由 Codec 处理
+	if tof == nil || tof.Kind() != reflect.Pointer {
+		return outsideMessageDesc
+	}
+	desc, ok := internalMessageTypeOfDesc[tof.Elem()]
 	if ok {
 		return desc
 	}
